@@ -473,7 +473,12 @@ class Machine:
                     res = s.cs(s.buf, mesh_type=mesh_type, **kw)
                 else:
                     p = [a.copy() for a in pos] if isinstance(pos, list) else pos.copy()
-                    res = s.cs(p, mesh_type=mesh_type, **kw)
+                    try:
+                        res = s.cs(p, mesh_type=mesh_type, **kw)
+                    finally:
+                        # the caller reuses its arrays: stored positions must be copies
+                        for a in (p if isinstance(p, list) else [p]):
+                            a += 3.25
                 results.append(np.array(res, dtype=np.double))
             except cm.CallbackFault:
                 if s.tag != "sut":
@@ -706,6 +711,9 @@ class Machine:
         cond = self.spec["cond"]
         n = len(cond["val"])
         kw = {}
+        if kr["normalizer"] == "LogNormal" and what in ("values", "pos_values") and \
+                (min(op["val"]) <= 0.05 or kr["trend"] is not None):
+            raise Inapplicable("LogNormal needs positive (detrended) data")
         if what == "values":
             val = list(op["val"])[:n]
             if len(val) != n:
@@ -739,12 +747,20 @@ class Machine:
         else:
             raise HarnessError(what)
         for s in self.sides():
+            mine = copy.deepcopy(kw)  # float64 arrays owned by the caller
             try:
-                s.cs.krige.set_condition(**copy.deepcopy(kw))
+                s.cs.krige.set_condition(**mine)
             except cm.CallbackFault:
                 # the user's function failed inside set_condition: the user repeats the call
                 self.ctx.probe("set_condition_failed_and_repeated")
-                s.cs.krige.set_condition(**copy.deepcopy(kw))
+                s.cs.krige.set_condition(**mine)
+            if op.get("mutate_after", True):
+                # the caller reuses its arrays afterwards: the kriging setup must own copies
+                for a in mine.values():
+                    if isinstance(a, np.ndarray) and a.dtype == np.double:
+                        a += 7.25
+                        a *= -1.5
+                self.ctx.probe("condition_arrays_mutated_after_set_condition")
         cond.update(new)
 
     def _refresh(self):
